@@ -93,7 +93,7 @@ func TestMain(m *testing.M) {
 		}
 	}()
 	if os.Getenv("VERIF_PROP") == "C20" {
-		// production metrics: the real Prometheus client (one per process: it registers globally)
+		// production metrics: the real Prometheus client; every run replaces it by one on a registry of its own
 		world.RealMetrics = kbprom.NewMetrics()
 	}
 	os.Exit(m.Run())
